@@ -41,6 +41,7 @@ import Relic.Driver.CHttp
 import Relic.Driver.Readers
 import Relic.Driver.Cosign
 import Relic.Driver.TsaX
+import Relic.Driver.Xar
 open Relic
 
 def dispatch (line : String) : String :=
@@ -92,6 +93,7 @@ def dispatch (line : String) : String :=
   | "COSIGN" :: rest => Relic.Driver.Cosign.handleCosign rest
   | "CAT" :: rest => Relic.Driver.Cosign.handleCat rest
   | "TSX" :: rest => Relic.Driver.TsaX.handle rest
+  | "XAR" :: rest => Relic.Driver.Xar.handle rest
   | _ => "bad-op"
 
 partial def loop (h : IO.FS.Stream) (out : IO.FS.Stream) : IO Unit := do
